@@ -17,7 +17,7 @@ import (
 	. "vh/vhlib"
 )
 
-var gens = map[string]GenFn{"SrcTokens": genSrcTokens, "HealthOps": genHealthOps, "LBTokens": genLBTokens, "HealthLoop": genHealthLoop, "RRTokens": genRRTokens, "HealthStoreOps": genHealthStoreOps, "SubsetTokens": genSubsetTokens, "HostSetTokens": genHostSetTokens, "CriteriaTokens": genCriteriaTokens, "HealthXferTokens": genHealthXferTokens}
+var gens = map[string]GenFn{"SrcTokens": genSrcTokens, "HealthOps": genHealthOps, "LBTokens": genLBTokens, "HealthLoop": genHealthLoop, "RRTokens": genRRTokens, "HealthStoreOps": genHealthStoreOps, "SubsetTokens": genSubsetTokens, "HostSetTokens": genHostSetTokens, "CriteriaTokens": genCriteriaTokens, "HealthXferTokens": genHealthXferTokens, "HealthLifecycleTokens": genHealthLifecycleTokens}
 
 // genSrcTokens: literal tokens / constants at named sites.
 //
@@ -893,6 +893,37 @@ func genHealthXferTokens(repo string) (string, error) {
 		b.WriteString("Definition xfer_mode : xfer_shape := XferReadThenSet.\nDefinition HealthXferTokens_translator_ok := true.\n")
 	default:
 		b.WriteString("(* transferHostSetStates: text not recognised *)\nDefinition xfer_mode : xfer_shape := XferNone.\nDefinition HealthXferTokens_translator_ok := false.\n")
+	}
+	return b.String(), nil
+}
+
+// ---------------------------------------------------------------------------
+// genHealthLifecycleTokens: what does healthChecker.stopCheck (pkg/upstream/healthcheck/healthchecker.go) do with the
+// health flag of the host whose session is stopped?
+//
+//	StopKeeps  : nothing (the text in the tree)
+//	StopClears : it clears FAILED_ACTIVE_HC when it is set
+//
+// Any other text => not ok.
+const stopCheckHead = "{\n\taddr := host.AddressString()\n\tif c, ok := hc.checkers[addr]; ok {\n\t\tc.Stop()\n\t\tdelete(hc.checkers, addr)\n"
+const stopCheckTail = "\t\tif log.DefaultLogger.GetLogLevel() >= log.INFO {\n\t\t\tlog.DefaultLogger.Infof(\"[upstream] [health check] remove a health check session for %s\", addr)\n\t\t}\n\t}\n}"
+const stopCheckKeeps = stopCheckHead + "\t\tatomic.AddInt64(&hc.localProcessHealthy, ^int64(0))\n" + stopCheckTail
+const stopCheckClears = stopCheckHead + "\t\tif c.Host.ContainHealthFlag(api.FAILED_ACTIVE_HC) {\n\t\t\tc.Host.ClearHealthFlag(api.FAILED_ACTIVE_HC)\n\t\t} else {\n\t\t\tatomic.AddInt64(&hc.localProcessHealthy, ^int64(0))\n\t\t}\n" + stopCheckTail
+
+func genHealthLifecycleTokens(repo string) (string, error) {
+	txt, err := funcText(repo, "pkg/upstream/healthcheck/healthchecker.go", "healthChecker", "stopCheck")
+	if err != nil {
+		return "", err
+	}
+	var b strings.Builder
+	b.WriteString("From MV Require Import Model.HealthLifecycle.\n")
+	switch normText(txt) {
+	case normText(stopCheckKeeps):
+		b.WriteString("Definition stop_mode : stop_shape := StopKeeps.\nDefinition HealthLifecycleTokens_translator_ok := true.\n")
+	case normText(stopCheckClears):
+		b.WriteString("Definition stop_mode : stop_shape := StopClears.\nDefinition HealthLifecycleTokens_translator_ok := true.\n")
+	default:
+		b.WriteString("(* healthChecker.stopCheck: text not recognised *)\nDefinition stop_mode : stop_shape := StopKeeps.\nDefinition HealthLifecycleTokens_translator_ok := false.\n")
 	}
 	return b.String(), nil
 }
